@@ -10,6 +10,8 @@ import (
 	"encoding/hex"
 	"fmt"
 	"math/rand"
+	"sync"
+	"sync/atomic"
 	"time"
 
 	"github.com/alephium/wormhole-fork/node/pkg/common"
@@ -57,12 +59,112 @@ func main() {
 		long := s == 0 // one full-budget run per check
 		runScenario(rng, store, serial+uint64(s), long, s)
 	}
+	for i := 0; i < r.Pick(8, 60); i++ {
+		runLoopCleanup(rng, store, serial+uint64(nS+i))
+	}
 	if r.GetCount("retransmissions") == 0 || r.GetCount("budget_exhausted_entries") == 0 || r.GetCount("entries_late") == 0 {
 		r.Inconclusive("a class of entries or the retry budget was never exercised")
 	}
 	r.Assume("logical time = sum of VerifAge shifts; real elapsed time of a scenario is < 1 s until every age-based threshold has been crossed (otherwise the scenario is discarded as inconclusive)",
 		"bounds are envelopes: retransmissions >= 5 min apart and overdue only after 5 min + 2 tick gaps; removal bounds 30 s / 5 min / 1 h + 2 ticks")
-	r.Finish("scenarios", "scripts", "entries of four kinds (observed-unsubmitted, observed with a stored quorum VAA, unknown digest with 1..3 of 4 signatures, submitted) created at different logical times through the real handlers; a guardian-set change between two ticks in a third of the scenarios (node dropped, set grown, strangers); tick scripts: regular 30 s ticks, irregular gaps 1 s..3 h, single stalls up to 1300 h, full request queue, one full 14400-retry run; distinct non-trivial = distinct (entry kinds, tick script) combinations", 50)
+	r.Finish("scenarios", "scripts", "entries of four kinds (observed-unsubmitted, observed with a stored quorum VAA, unknown digest with 1..3 of 4 signatures, submitted) created at different logical times through the real handlers; a guardian-set change between two ticks in a third of the scenarios (node dropped, set grown, strangers); tick scripts: regular 30 s ticks, irregular gaps 1 s..3 h, single stalls up to 1300 h, full request queue, one full 14400-retry run; plus the cleanup branch of the real Run loop (15 ms ticker through a hook) with an aged pending entry while two feeders keep the observation queue more than half full; distinct non-trivial = distinct (entry kinds, tick script) combinations", 50)
+}
+
+// runLoopCleanup: the schedule is driven by the cleanup branch of the real Run loop, so it also has to hold there - in
+// particular while gossip keeps the observation queue busy. The real Run loop (production queue capacity) gets a
+// pending own observation; the entry is aged past the retry time while the loop is idle; the cleanup ticker is set to
+// 15 ms (hook) and a feeder keeps the observation queue more than half full with observations that are dropped on
+// arrival. Within the feeding period (>= 60 ticks) the own observation must be re-broadcast.
+func runLoopCleanup(rng *rand.Rand, store *db.Database, serial uint64) {
+	rig, err := proc.New(proc.Options{Key: vlib.Key(proc.NodeKey), DB: store, Run: true, ObsvCap: proc.ObsvCap})
+	if err != nil {
+		r.InconclusiveCase("rig: " + err.Error())
+		return
+	}
+	defer rig.Close()
+	g := &proc.GSet{Index: 0, Pool: []int{proc.NodeKey, 1, 2, 3}}
+	send := func(f func()) bool {
+		done := make(chan struct{})
+		go func() { f(); close(done) }()
+		select {
+		case <-done:
+			return true
+		case <-time.After(10 * time.Second):
+			return false
+		}
+	}
+	m := proc.GenMsg(rng, serial, 0)
+	if !send(func() { rig.SetC <- g.Common() }) || !send(func() { rig.LockC <- m.Pub }) {
+		r.InconclusiveCase("run loop did not take the set / the message")
+		return
+	}
+	// barrier: two rendezvous on the unbuffered set channel - after the second one the handler of the first has returned
+	barrier := func() bool {
+		return send(func() { rig.SetC <- g.Common() }) && send(func() { rig.SetC <- g.Common() })
+	}
+	if !barrier() {
+		r.InconclusiveCase("run loop stopped taking events")
+		return
+	}
+	var own []byte
+	for _, o := range rig.DrainSend() {
+		if o.Kind == "obs" && hex.EncodeToString(o.Obs.Hash) == hex.EncodeToString(m.Digest) {
+			own = o.Raw
+		}
+	}
+	if own == nil {
+		r.InconclusiveCase("run loop: no own observation for the message")
+		return
+	}
+	time.Sleep(5 * time.Millisecond) // the loop is back in its select (nothing else is sent to it)
+	rig.P.VerifAge(6 * time.Minute)
+	rig.P.VerifResetCleanupTicker(15 * time.Millisecond)
+	stop := make(chan struct{})
+	var fed int64
+	var wg sync.WaitGroup
+	busy := rng.Intn(4) != 0 // a quarter of the runs without gossip load (control)
+	for f := 0; f < 2 && busy; f++ {
+		wg.Add(1)
+		go func() {
+			defer wg.Done()
+			junk := &gossipv1.SignedObservation{Addr: make([]byte, 20), Hash: make([]byte, 32), Signature: make([]byte, 65), MessageId: "load"}
+			for {
+				select {
+				case <-stop:
+					return
+				case rig.ObsvC <- junk:
+					atomic.AddInt64(&fed, 1)
+				}
+			}
+		}()
+	}
+	retrans := 0
+	deadline := time.After(1500 * time.Millisecond)
+loop:
+	for {
+		select {
+		case raw := <-rig.SendC:
+			if bytes.Equal(raw, own) {
+				retrans++
+				break loop
+			}
+		case <-deadline:
+			break loop
+		}
+	}
+	close(stop)
+	wg.Wait()
+	r.Count("run_loop_cleanup_scenarios", 1)
+	r.Count("run_loop_observations_fed_during_ticks", atomic.LoadInt64(&fed))
+	switch {
+	case retrans > 0:
+		r.Count("run_loop_retransmissions_seen", 1)
+	case busy && atomic.LoadInt64(&fed) < 200:
+		r.InconclusiveCase("run loop was not scheduled enough to judge (observations taken: " + fmt.Sprint(atomic.LoadInt64(&fed)) + ")")
+	default:
+		r.Violation("run-loop:retransmission-overdue-while-the-cleanup-ticker-fires", map[string]interface{}{"gossip_load": busy, "observations_taken_by_the_loop": atomic.LoadInt64(&fed),
+			"entry_age": "6 min (retry time 5 min)", "ticker_period": "15 ms", "waited": "1.5 s"})
+	}
 }
 
 func runScenario(rng *rand.Rand, store *db.Database, serial uint64, long bool, sIdx int) {
